@@ -460,6 +460,7 @@ static void bytes_shard(int shard, long long resume_after, int L)
 }
 
 // ------------------------------------------------------------------------------ (ii) all trees
+static std::string g_diff_class;  // set by compare() when the difference has a class of its own
 // node by node comparison; returns "" or what differs (first difference in document order)
 static std::string compare(const RNode &want, const xml::Node &got, const std::string &path, std::string &detail, long long &ncmp)
 {
@@ -470,6 +471,18 @@ static std::string compare(const RNode &want, const xml::Node &got, const std::s
   }
   if (got.properties != want.props) {
     detail = path + ": properties differ";
+    // the class of a property difference is the shape of the generating attribute list, not the document's layout
+    std::string shape;
+    std::string firstval;
+    bool equal = want.props.size() > 1;
+    for (auto &kv : want.props) {
+      shape += (shape.empty() ? "" : ", ") + std::string(kv.second.empty() ? "empty" : "non-empty");
+      if (&kv == &*want.props.begin())
+        firstval = kv.second;
+      else if (kv.second != firstval)
+        equal = false;
+    }
+    g_diff_class = "attribute values by name: " + shape + (equal && !firstval.empty() ? " (all equal)" : "");
     return got.properties.size() != want.props.size() ? "number of properties" : "property name or value";
   }
   if (got.content != want.content) {
@@ -494,7 +507,8 @@ static std::string doc_class(const c16::Gen &g, int family, int header)
 {
   if (family == 1)
     return "nesting chain, layout " + std::to_string(g.layout);
-  return "layout " + std::to_string(g.layout) + (header ? ", header" : ", no header") + (g.pattern ? ", comments" : ", no comments");
+  return "layout " + std::to_string(g.layout) + (header ? ", header" : ", no header") +
+      (g.pattern ? std::string(", comments '") + c16::BODIES[c16::PATTERNS[g.pattern].body] + "'" : std::string(", no comments"));
 }
 
 static void tree_core(c16::Choices &c, c16::Gen &g, const std::string &cls, const std::string &replay);
@@ -526,6 +540,7 @@ static void tree_core(c16::Choices &c, c16::Gen &g, const std::string &cls, cons
   if (r == R_RETURNED) {
     obs = "R:" + node_str(doc);
     long long ncmp = 0;
+    g_diff_class.clear();
     // the document node itself: only its list of top-level elements is specified
     if (doc.child.size() != g.root.child.size()) {
       diff = "number of top-level elements";
@@ -536,7 +551,7 @@ static void tree_core(c16::Choices &c, c16::Gen &g, const std::string &cls, cons
     cnt(C_TRANS, ncmp);
     cnt(C_NODES, ncmp / 4);
     if (!diff.empty())
-      shm_violation("readXML|returned tree differs from the generating tree: " + diff + "|" + cls, replay,
+      shm_violation("readXML|returned tree differs from the generating tree: " + diff + "|" + (g_diff_class.empty() ? cls : g_diff_class), replay,
           "document '" + g.doc + "': " + detail + "; got " + node_str(doc) + " want " + c16::tree_str(g.root));
   } else {
     obs = "T:" + what;
@@ -570,8 +585,8 @@ struct TreeShards
       return d;
     }
     int x = shard;
-    int props = x % P.NPROPS;
-    x /= P.NPROPS;
+    int props = x % P.NPR;
+    x /= P.NPR;
     int name = x % 2;
     x /= 2;
     int pat = x % P.NP;
@@ -592,7 +607,7 @@ static TreeShards tree_shards(const c16::Params &P)
 {
   TreeShards t;
   t.P = P;
-  t.n0 = P.NH * P.NL * P.NP * 2 * P.NPROPS;
+  t.n0 = P.NH * P.NL * P.NP * 2 * P.NPR;
   return t;
 }
 
@@ -776,7 +791,7 @@ int main(int argc, char **argv)
       c.digit.push_back(0);
       c.bound.push_back(2);
       c.frozen = 1;
-      c16::Gen g(c, c16::params_quick(), B);
+      c16::Gen g(c, c16::params_mutbase(), B);
       do {
         if (g.run()) {
           BaseDoc b;
